@@ -1037,7 +1037,11 @@ fn decide(
             let mut sz = size;
             let mut funds = if restricted(sim, &base) { vec![] } else { vec![CoinS::new(sz, &base)] };
             if mutate {
-                match r.below(7) {
+                match r.below(8) {
+                    7 => {
+                        let d = r.pick(&cfg.quotes).clone();
+                        funds.push(CoinS::new(1 + r.below(9) as u128, &d));
+                    }
                     0 => sz += inc,
                     1 => sz = sz.saturating_sub(inc).max(1),
                     2 => funds = vec![CoinS::new(sz + 1, &base)],
@@ -1110,7 +1114,22 @@ fn decide(
                             price = Px { units: if r.chance(0.5) { u0 + 1 } else { u0.saturating_sub(1).max(1) }, d: x.scale }.render();
                         }
                     }
-                    4 => price = r.pick(&["", "abc", "0", "-1"]).to_string(),
+                    4 => {
+                        if r.chance(0.5) {
+                            price = r.pick(&["", "abc", "0", "-1"]).to_string();
+                        } else if let Parsed::Ok(x) = dec::parse(if r.chance(0.5) { &a.price } else { &b.price }) {
+                            // a price with more decimals than the precision that rounds to a limit,
+                            // with a size for which size x price is still whole
+                            let e = wg.precision + 1;
+                            let u0 = dec::to_u128(x.mant).unwrap_or(1) * 10u128.pow(e.saturating_sub(x.scale));
+                            let delta = if r.chance(0.5) { 2 } else { 4 };
+                            let units = if r.chance(0.5) { u0 + delta } else { u0.saturating_sub(delta).max(1) };
+                            price = Px { units, d: e }.render();
+                            if m >= 5 * unit {
+                                size = unit * 5 * r.range(1, (m / (5 * unit)) as u64) as u128;
+                            }
+                        }
+                    }
                     5 => ask_id = random_id(r, view, closed),
                     6 => bid_id = random_id(r, view, closed),
                     7 => funds = vec![CoinS::new(1, &b.quote)],
